@@ -17,6 +17,9 @@ Program classes (the programs are rendered to source text here; the Lean side se
  * call chains: macro i calls macro i+1 ... (depth up to 300, every macro open once), fan-out trees;
  * bounded recursion (`IF arg>0` / call with arg-1 / `ENDIF`) to depths around NESTMAX (default 256 and values set with
    the NESTMAX instruction, 0 = no limit), repeated many times; unbounded recursion (must be refused);
+ * shadowing: a private label of an expansion / a repetition that has the name of a label of the enclosing scope (the top level or
+   the calling macro) and is used inside BEFORE its definition (known finding forward-reference-to-local-label-takes-outer-label: the
+   first pass finds the outer label, nothing is undefined, so no second pass is made) and after its definition (fine);
  * empty bodies: macros without lines, REPT/IRP/IRPC without lines, IRPC over "" inside expansions that have private
    labels which are used afterwards (known finding empty-expansion-pops-enclosing-local-handle) and at the top level.
 """
@@ -25,6 +28,7 @@ import re
 from .. import common
 
 SIG_EMPTY = "empty-expansion-pops-enclosing-local-handle"
+SIG_SHADOW = "forward-reference-to-local-label-takes-outer-label"
 
 LIST_OPTS = [[], ["NOEXPAND"], ["EXPAND"], ["EXPIF"], ["NOEXPIF"], ["EXPMACRO"], ["NOEXPMACRO"], ["EXPREST"], ["NOEXPREST"],
              ["NOEXPAND", "EXPIF"], ["EXPAND", "NOEXPMACRO"], ["NOEXPAND", "EXPREST", "EXPIF"], ["EXPORT"], ["NOEXPORT", "NOEXPAND"],
@@ -38,7 +42,7 @@ class Prog:
         self.defs = []                  # dict(kind 'M'|'L', gs, opts, intlabel, body)
         self.top = []
         self.nlab = 0
-        self.stats = dict(calls_written=0, macros=0, gs_macros=0, intlabel=0, loops=0, empty_bodies=0, recursion=0, two_pass=0)
+        self.stats = dict(calls_written=0, macros=0, gs_macros=0, intlabel=0, loops=0, empty_bodies=0, recursion=0, two_pass=0, shadow=0)
 
     def macro(self, body, gs=False, opts=(), intlabel=False):
         self.defs.append(dict(kind="M", gs=gs, opts=list(opts), intlabel=intlabel, body=body))
@@ -306,6 +310,37 @@ def gen_empty(rng, shape):
     return p
 
 
+def gen_shadow(rng, shape):
+    """a private label with the name of a label of the enclosing scope; `fwd`: used inside before its definition"""
+    p = Prog("shadowing: %s" % shape)
+    l = p.label()
+    fwd = "fwd" in shape
+    if fwd:
+        p.stats["shadow"] += 1
+        inner = [("E", rng.randrange(256)), ("R", l), ("E", rng.randrange(256)), ("D", l), ("E", rng.randrange(256))]
+    else:
+        inner = [("E", rng.randrange(256)), ("D", l), ("E", rng.randrange(256)), ("R", l)]
+    if "rept" in shape or "irp" in shape:
+        hole = ("P", p.loopdef(inner), rng.choice([1, 2]), "r" if "rept" in shape else "i")
+    else:
+        hole = ("C", p.macro(inner, gs=False, opts=opt_sets(rng) if rng.random() < 0.3 else []), 0)
+    if "outer-macro" in shape:
+        # the outer label is the private label of the calling macro
+        outer = p.macro([("D", l), ("E", rng.randrange(256)), hole, ("R", l)], gs=False)
+        p.top += [("E", 1), ("C", outer, 0)]
+    elif "outer-after" in shape:
+        # the global label is defined behind the call: undefined in the first pass, so a second pass is made (fine)
+        p.top += [("E", 1), hole, ("D", l), ("R", l)]
+        p.stats["shadow"] = 0
+        p.stats["two_pass"] += 1
+    else:
+        p.top += [("D", l), ("E", 1), hole, ("R", l)]
+    return p
+
+
+SHADOW_SHAPES = ["fwd-macro", "fwd-rept", "fwd-irp", "fwd-macro-outer-macro", "fwd-rept-outer-macro", "fwd-macro-outer-after",
+                 "back-macro", "back-rept", "back-macro-outer-macro"]
+
 EMPTY_SHAPES = ["macro", "rept", "irp", "irpc", "irpc0", "rept0", "macro-in-loop", "rept-in-loop", "macro-label-after", "irp-label-after",
                 "macro-gs-empty", "rept-gs-empty", "macro-top", "rept-top", "irpc0-top"]
 
@@ -345,6 +380,10 @@ def generate(rng, tier):
         nm = rng.choice([None, 0, 1, 2, 3, 5, 20, 100])
         lim = 256 if nm is None else nm
         progs.append(gen_recursion(rng, nm, max(0, (lim if lim else 40) + rng.randrange(-4, 6)), rng.choice([1, 1, 2, 5])))
+    # shadowing
+    for sh in SHADOW_SHAPES:
+        for _ in range(1 if quick else 4):
+            progs.append(gen_shadow(rng, sh))
     # empty bodies
     for sh in EMPTY_SHAPES:
         for _ in range(1 if quick else 6):
@@ -399,7 +438,8 @@ def run_stream(args, asl, canon_p, bdir, wd, drv_ok, dist, spec_fail, corr_fail,
     if not drv_ok:
         return evaluations, distinct
     d = dict(programs=0, calls_written=0, most_calls_in_one_program=0, verdict={"A": 0, "R": 0, "E": 0}, two_pass_programs=0, gs_macros=0,
-             intlabel_macros=0, recursion_programs=0, empty_body_programs=0, model_eq_real=0, spec_checked=0, finding_programs=0, max_open=0)
+             intlabel_macros=0, recursion_programs=0, empty_body_programs=0, shadow_programs=0, model_eq_real=0, spec_checked=0, finding_programs=0,
+             shadow_finding_programs=0, max_open=0)
     empty_pops = probe_empty_pops(asl, bdir, wd)
     d["quirk_emptyPops"] = empty_pops
     rng = common.rng_for(args.seed, "C11/nest")
@@ -424,6 +464,7 @@ def run_stream(args, asl, canon_p, bdir, wd, drv_ok, dist, spec_fail, corr_fail,
         d["intlabel_macros"] += p.stats["intlabel"]
         d["recursion_programs"] += int(p.stats["recursion"] > 0)
         d["empty_body_programs"] += int(p.stats["empty_bodies"] > 0)
+        d["shadow_programs"] += int(p.stats["shadow"] > 0)
         d["max_open"] = max(d["max_open"], int(kv["s_max"]))
         info = dict(tag="nest %d" % k, source=src if len(src) < 60000 else src[:60000] + "...", asflags="", program_class=p.what,
                     real="rc=%s refused=%d (of these with the message text cut off by the position prefix: %d) undefined=%d double=%d other=%d %s" % (
@@ -433,6 +474,15 @@ def run_stream(args, asl, canon_p, bdir, wd, drv_ok, dist, spec_fail, corr_fail,
         if kv["s_undef"] != "0" or kv["s_dbl"] != "0" or (kv["s_verdict"] == "A" and kv["s_ok"] != "1"):
             proof_problems.append("c11nest generator: the spec's own expansion of program %d (%s) has undefined/double labels" % (k, p.what))
             continue
+        # what C11_nest_refines / C11_nest_refuses_partial (Props/C11_Nest.lean) say about the compiled model, seen on this program
+        lim = 256 if p.nestmax is None else p.nestmax
+        if kv["s_ok"] == "1" and kv["s_dbl"] == "0" and (lim == 0 or int(kv["s_max"]) <= lim + 1) and \
+                (kv["f_undef"] != "0" or kv["f_bytes"] == kv["s_bytes"]):
+            d["theorem_instances"] = d.get("theorem_instances", 0) + 1
+            if not (kv["i_bytes"] == kv["s_bytes"] and kv["i_refused"] == "0" and kv["i_undef"] == kv["s_undef"] and kv["i_dbl"] == "0"):
+                proof_problems.append("c11nest: the compiled model contradicts theorem C11_nest_refines on program %d (%s)" % (k, p.what))
+        if kv["s_ok"] == "1" and lim > 0 and int(kv["s_max"]) > lim + 1 and kv["i_refused"] == "0":
+            proof_problems.append("c11nest: the compiled model contradicts theorem C11_nest_refuses_partial on program %d (%s)" % (k, p.what))
         m_err = int(kv["m_refused"]) + int(kv["m_undef"]) + int(kv["m_dbl"])
         model_eq_real = (r["other"] == 0 and r["refused"] == int(kv["m_refused"]) and r["undef"] == int(kv["m_undef"]) and r["dbl"] == int(kv["m_dbl"])
                          and (r["rc"] == 0) == (m_err == 0) and (m_err > 0 or r["code"] == unhx(kv["m_bytes"])) and kv["m_left"] == "0")
@@ -461,6 +511,13 @@ def run_stream(args, asl, canon_p, bdir, wd, drv_ok, dist, spec_fail, corr_fail,
                 # fully explained: the model with the probed quirk predicts exactly this outcome, the model without it the spec's
                 info["sig"] = SIG_EMPTY
                 d["finding_programs"] += 1
+            elif (v == "A" and model_eq_real and p.stats["shadow"] > 0 and r["rc"] == 0 and kv["f_undef"] == "0" and kv["f_dbl"] == "0"
+                  and kv["m_passes"] == "1" and kv["f_bytes"] != kv["s_bytes"] and r["code"] == unhx(kv["f_bytes"])):
+                # fully explained: nothing is undefined in the first pass (the outer label is found), so asl - and the model - stop after
+                # it with the bytes of the SPEC's first pass; the SPEC's second pass finds the private label (Props/C11_Nest.lean,
+                # C11_finding_forward_shadow / the hypothesis `Settled` of C11_nest_refines)
+                info["sig"] = SIG_SHADOW
+                d["shadow_finding_programs"] += 1
             spec_fail.append(info)
             continue
         if not model_eq_real:
